@@ -267,6 +267,28 @@ func runC15(c *fw.Case) (o fw.Outcome) {
 		o.Fail("generate", "MilenageGenerate: autn=%x res=%x (len %d); reference autn=%x res=%x", autn, gRes, resLen, wAutn, wRes)
 		return
 	}
+	if c.Idx%8 == 5 {
+		// output buffers WIDER than the values, holding what they held before (a scratch area the caller reuses: an earlier
+		// CK, RES, AUTN): each value is written to the front of its buffer and is what TS 35.206 says, whatever lies behind it
+		w := func(n int) []byte { return rbytes(r, n+pick(r, 1, 2, 8, 10, 16)) }
+		xAutn, xIk, xCk, xAk, xRes := w(16), w(16), w(16), w(6), w(8)
+		xLen := uint(8)
+		milenage.MilenageGenerate(opc, amf, k, sqnNet, rnd, xAutn, xIk, xCk, xAk, xRes, &xLen)
+		if xLen != 8 || !bytes.Equal(xAutn[:16], wAutn) || !bytes.Equal(xRes[:8], wRes) || !bytes.Equal(xCk[:16], wCk) || !bytes.Equal(xIk[:16], wIk) || !bytes.Equal(xAk[:6], wAk) {
+			o.Fail("generate", "MilenageGenerate into wider, used buffers (autn %d, ik %d, ck %d, ak %d, res %d octets): autn=%x res=%x ak=%x (len %d); reference autn=%x res=%x ak=%x",
+				len(xAutn), len(xIk), len(xCk), len(xAk), len(xRes), xAutn[:16], xRes[:8], xAk[:6], xLen, wAutn, wRes, wAk)
+			return
+		}
+		yRes, yCk, yIk, yAk, yAkS := w(8), w(16), w(16), w(6), w(6)
+		yA, yS := w(8), w(8)
+		e1 := milenage.F2345(opc, k, rnd, yRes, yCk, yIk, yAk, yAkS)
+		e2 := milenage.F1(opc, k, rnd, sqnNet, amf, yA, yS)
+		if e1 != nil || e2 != nil || !bytes.Equal(yRes[:8], wRes) || !bytes.Equal(yCk[:16], wCk) || !bytes.Equal(yIk[:16], wIk) || !bytes.Equal(yAk[:6], wAk) || !bytes.Equal(yAkS[:6], wAkS) || !bytes.Equal(yA[:8], wMacA) || !bytes.Equal(yS[:8], wMacS) {
+			o.Fail("f2345", "F1 / F2345 into wider, used buffers: res=%x ck=%x ik=%x ak=%x ak*=%x f1=%x f1*=%x (err %v %v); TS 35.206 gives %x %x %x %x %x %x %x", yRes[:8], yCk[:16], yIk[:16], yAk[:6], yAkS[:6], yA[:8], yS[:8], e1, e2, wRes, wCk, wIk, wAk, wAkS, wMacA, wMacS)
+			return
+		}
+		o.Count("wider_used_buffer_calls", 3)
+	}
 	// ---- checking: the accept-iff-valid predicate
 	fresh := sqnLess(sqnUE, sqnNet)
 	check := func(a []byte) (ret int, res, ck, ik, auts []byte) {
